@@ -47,8 +47,13 @@ SPEC = {
         "comeback while a packet of the previous incarnation is still being handled is not driven (model: refused)",
         "one packet at a time per connection (one read loop): no second handshake on a connection while one is in flight; in "
         "concurrent blocks the packets and the teardown of a connection stay in one block",
-        "not driven: Register replacing an existing connection id and Register of a pre-authenticated connection "
-        "(packet_handler_tunnel_ops temp connection), direct UpdateControlConnectionAuth (no caller besides handleHandshake), "
+        "Register is driven through RegisterControlConnection with a new ControlConnection built from SessionManager's entry "
+        "(op G): unauthenticated in any state (limit eviction and replacement of the registered entry, also both in one call), "
+        "pre-authenticated only in the situation notifyTargetClientToOpenTunnel builds it in (no connection indexed for the "
+        "client, the id not registered as a control connection, stream not closed; no reader type in the tree implements "
+        "GetClientID, so that caller is unreachable today). Not driven: a pre-authenticated Register OVER a registered id "
+        "(removeConnectionLocked(existing) closes the stream the new object shares: it would be indexed with a closed "
+        "transport), direct UpdateControlConnectionAuth (no caller besides handleHandshake), "
         "connStateStore side effects (nil in the harness; C08), the contents of the cloud-control state (C08; the harness "
         "configures a cloud-control double that only answers ok / error), SessionManager shutdown (C16)",
         "'its transport is closed' is the server-side Close of the fake transport; a peer-side break is an input (op P)",
